@@ -59,6 +59,7 @@ def run(R):
     from harness import C33_enc as H
     cat = H.catalogue(R.tier)
     H.TYPES[:] = cat
+    H.ETYPES[:] = [H.etype(H.entry(k)[0]) for k in range(len(cat))]
     text = loader.read(TYPES_PY)
     for n in ast.walk(ast.parse(text)):
         if isinstance(n, ast.ClassDef):
@@ -80,8 +81,10 @@ def run(R):
     R.assume('struct.pack/unpack replaced in byte_reader by pure-Python little-endian arithmetic (contract validated against the real struct each run)',
              'floats are opaque IEEE bit patterns (struct float packing assumed injective on patterns); floats inside numpy arrays go through the real struct',
              'the layout reference (harness/C33_enc.py ref_encode) is hand-written from E*.scala; only the type->EType/required table is parsed from EType.scala; the engine is not run',
+             'np.prod in hail.expr.types returns a Python int (CrossHair\'s range() rejects numpy integers)',
              'top-level values are non-missing (hl.literal handles top-level missing before encoding); dict keys non-missing',
              'call decode uses math.sqrt (C): alleles are chosen values, not symbolic (bit packing itself is C34)',
+             'HailType.__hash__ (43 + hash(str(self))) is replaced by a deterministic checksum of the same string: CrossHair makes hash(str) symbolic',
              'CrossHair 0.0.110 path exploration is exhaustive when it reports "Confirmed over all paths"')
     R.extra['trusted_base'] = ['CrossHair/z3', 'harness/C33_enc.py reference layout and struct stub', 'harness/C32_json.py value builder and eq()']
     GROUP = 2 if R.tier == 'quick' else 4
@@ -130,6 +133,7 @@ def replay(path):
     from harness import C32_json as J
     from harness import C33_enc as H
     H.TYPES[:] = H.catalogue(d['tier'])
+    H.ETYPES[:] = [H.etype(H.entry(k)[0]) for k in range(len(H.TYPES))]
     if str(H.entry(d['k'])[0]) != d['type']:
         print('catalogue changed; cannot replay')
         return 2
